@@ -40,6 +40,13 @@ CHECKS = {
              "log every antenna request and are compared with the model's request plan; totals, PKTIDX/PKTSTOP/SCANLEN and clocks are checked "
              "against the exact integers on the implementation.",
         design="3/C20", technique="Coq proof over Z (div/mod, induction over blocks) + PrimFloat kernels + request-log correspondence"),
+    "C15": dict(
+        text="Theorem for every sample type and sum, every delay d <= maxd, every restart instant and every sequence of request sizes larger "
+             "than the largest delay: the concatenated output is own[k] + bg[k + maxd - d] (induction over requests with the invariant "
+             "'bg_cache = the last d background samples consumed, consumed = delivered + maxd'); set_time forgets all carried-over state; "
+             "zero delays (the omitted default) give the plain sum. The model is run with integer-tag sources against MultiAntennaArray "
+             "(1-5 antennas, 1-2 pols, interleaved set_time/add_time/reset_start), and the formula is evaluated on the implementation.",
+        design="3/C15", technique="Coq induction over request sequences (law-free routing) + integer-tag correspondence"),
 }
 
 PENDING_REASON = "check not built yet in this session (planned in DESIGN.md section 3); no claim is made for it in this commit"
